@@ -49,8 +49,65 @@ def _explicit_nondefault(P: Dict[str, Any]) -> bool:
     return False
 
 
+def _nest_composed(case: Dict[str, Any], res: CaseResult) -> CaseResult:
+    """A DAG obtained from compose() is called inside another DAG: it must behave like its inlined body too."""
+    import tawazi
+
+    from .. import composeref as cr, gen, sched
+    from ..schedcase import Model
+
+    P = case["prog"]
+    M = Model({"prog": P, "mc": 2})
+    vals = [dec(v) for v in case["vals"]]
+    E = cr.compose_expect(P, M, case["inputs"], case["outputs"], vals, {}, single=False)
+    res.cls("nest-composed")
+    if E.error:
+        res.skipped = "compose-rejects-" + E.error
+        return res
+    b = prog.build(P, mc=2)
+    tag = f" [compose(inputs={case['inputs']}, outputs={case['outputs']}) nested in an outer DAG, vals={case['vals']}]"
+    try:
+        ins = [cr.real_alias(b, P, a) for a in case["inputs"]]
+        outs = [cr.real_alias(b, P, o) for o in case["outputs"]]
+        import warnings
+
+        with warnings.catch_warnings():
+            warnings.simplefilter("ignore")
+            composed = b.dag.compose("CMP", ins, outs)
+
+        def outer() -> Any:
+            return composed(*vals)
+
+        outer.__qualname__ = outer.__name__ = "OUT"
+        od = tawazi.dag(outer, max_concurrency=case.get("mc", 2))
+    except BaseException as e:  # noqa: BLE001
+        if isinstance(e, KeyboardInterrupt):
+            raise
+        res.viol("error-building", f"raised {type(e).__name__}: {str(e)[:300]}" + tag)
+        return res
+    ex = sched.Exec("free")
+    try:
+        with ex:
+            val = od()
+    except BaseException as e:  # noqa: BLE001
+        if isinstance(e, KeyboardInterrupt):
+            raise
+        res.viol("error-calling", f"raised {type(e).__name__}: {str(e)[:300]}" + tag)
+        return res
+    if val != E.value:
+        res.viol("value", f"returned {val!r}, inlined reference {E.value!r}" + tag)
+    got, want = pc.obs_counter(prog.observations(ex)), pc.obs_counter(E.obs)
+    if got != want:
+        res.viol("observations", f"nodes saw {sorted((got - want).items())[:3]} instead of {sorted((want - got).items())[:3]}" + tag)
+    res.evals = 1
+    res.nontrivial = len(E.needed) >= 2
+    return res
+
+
 def run_case(case: Dict[str, Any]) -> CaseResult:
     res = CaseResult()
+    if case.get("family") == "nest-composed":
+        return _nest_composed(case, res)
     P, args = case["prog"], case["args"]
     ref_val, ref_exc, R = pc.reference(P, args)
     if ref_exc is not None:
@@ -106,6 +163,26 @@ def run_case(case: Dict[str, Any]) -> CaseResult:
 
 @st.composite
 def cases(draw: Any, tier: str) -> Dict[str, Any]:
+    if draw(st.sampled_from([True] + [False] * 5)):
+        from .. import gen
+
+        P = draw(gen.flat_prog(min_sites=3, max_sites=8, max_deps=3, resources=gen.RES, dep_kinds=("pos", "kw"),
+                               index_rate=0.2, prio_range=(-1, 2)))
+        sites = [s["site"] for s in P["body"]]
+        outs = draw(st.lists(st.sampled_from(sites), min_size=1, max_size=3, unique=True))
+        anc = gen.ancestors(gen.deps_of(P))
+        up = sorted({a for o in outs for a in anc[o]} - set(outs))
+        ins = draw(st.lists(st.sampled_from(up), min_size=0, max_size=2, unique=True)) if up else []
+        vals = []
+        for name in ins:
+            kind = P["fns"][[s for s in P["body"] if s["site"] == name][0]["fn"]].get("kind")
+            if kind == "tup":
+                vals.append(prog.enc(draw(st.sampled_from([(3, 4), ("u", 0)]))))
+            elif kind == "dict":
+                vals.append(prog.enc({"a": 0, "b": [1, (2, 3)]}))
+            else:
+                vals.append(prog.enc(draw(st.sampled_from([0, 1, "w", None]))))
+        return {"family": "nest-composed", "prog": P, "inputs": ins, "outputs": outs, "vals": vals, "mc": draw(st.integers(1, 3))}
     c = draw(richgen.rich_case(depth=3, max_stmts=6, flag_w=6, sub_w=8))
     c["configs"] = draw(pc.configs(2, sites=prog.sites_of(c["prog"])))
     return c
